@@ -9,21 +9,26 @@ facts = []
 for m in re.finditer(r'^def (\w+) : List CallFact := \[(.*?)^\]', src, re.S | re.M):
     for f in re.findall(r'⟨\.(\w+), (\d+), (true|false), (none|some true|some false)⟩', m.group(2)):
         facts.append((m.group(1),) + f)
+EXCEPT = {
+ 'musig_partial_sig_load': 'the object can only come from secp256k1_musig_partial_sig_parse, which rejects s >= n (pinned above), or from partial_sign / save, which store a reduced scalar',
+}
 MAP = {
- 'C01': ['ecdsa_sig_verify', 'ecdsa_verify', 'ecdsa_signature_parse_compact', 'ecdsa_recoverable_signature_parse_compact'],
- 'C02': ['schnorrsig_verify', 'xonly_pubkey_parse'],
+ 'C01': ['ecdsa_sig_verify', 'ecdsa_verify', 'ecdsa_signature_parse_compact', 'ecdsa_recoverable_signature_parse_compact', 'ecdsa_sig_sign', 'ecdsa_sign_inner', 'ecdsa_signature_load', 'ecdsa_recover', 'ecdsa_recoverable_signature_load', 'ecdsa_sig_recover'],
+ 'C02': ['schnorrsig_verify', 'xonly_pubkey_parse', 'schnorrsig_challenge', 'schnorrsig_sign_internal'],
  'C03': ['der_parse_integer', 'ecdsa_sig_parse', 'eckey_pubkey_parse', 'ec_pubkey_parse', 'ecdsa_signature_parse_compact', 'xonly_pubkey_parse'],
- 'C04': ['ec_seckey_tweak_add', 'ec_seckey_tweak_mul', 'ec_seckey_tweak_add_helper', 'ec_pubkey_tweak_add_helper', 'ec_pubkey_tweak_mul'],
- 'C08': ['generator_parse', 'pedersen_commitment_parse', 'pedersen_commit', 'pedersen_blind_sum', 'pedersen_blind_generator_blind_sum', 'generator_generate_internal'],
+ 'C04': ['ec_seckey_tweak_add', 'ec_seckey_tweak_mul', 'ec_seckey_tweak_add_helper', 'ec_pubkey_tweak_add_helper', 'ec_pubkey_tweak_mul', 'ec_pubkey_create_helper', 'ec_seckey_negate', 'ec_seckey_verify', 'keypair_seckey_load', 'scalar_set_b32_seckey'],
+ 'C08': ['generator_parse', 'pedersen_commitment_parse', 'pedersen_commit', 'pedersen_blind_sum', 'pedersen_blind_generator_blind_sum', 'generator_generate_internal', 'generator_load', 'pedersen_scalar_set_u64'],
+ 'C09': ['borromean_sign', 'rangeproof_genrand', 'rangeproof_sign_impl'],
  'C10': ['rangeproof_verify_impl', 'borromean_verify'],
- 'C11': ['surjectionproof_verify', 'surjectionproof_generate'],
- 'C12': ['musig_partial_sig_parse', 'musig_pubnonce_parse', 'musig_partial_sign', 'musig_partial_sig_verify', 'musig_pubkey_tweak_add_internal'],
- 'C14': ['ecdsa_adaptor_sig_deserialize', 'ecdsa_adaptor_verify', 'ecdsa_adaptor_recover', 'ecdsa_adaptor_encrypt', 'ecdsa_adaptor_decrypt', 'dleq_verify'],
- 'C15': ['ecdsa_s2c_verify_commit'],
- 'C16': ['whitelist_verify', 'whitelist_compute_tweaked_privkey', 'borromean_verify'],
+ 'C11': ['surjectionproof_verify', 'surjectionproof_generate', 'surjection_genrand'],
+ 'C12': ['musig_partial_sig_parse', 'musig_pubnonce_parse', 'musig_partial_sign', 'musig_partial_sig_verify', 'musig_pubkey_tweak_add_internal', 'keyagg_cache_load', 'musig_adapt', 'musig_extract_adaptor', 'musig_keyaggcoef_internal', 'musig_nonce_gen_internal', 'musig_nonce_process_internal', 'musig_partial_sig_load', 'musig_secnonce_load', 'musig_session_load', 'nonce_function_musig'],
+ 'C14': ['ecdsa_adaptor_sig_deserialize', 'ecdsa_adaptor_verify', 'ecdsa_adaptor_recover', 'ecdsa_adaptor_encrypt', 'ecdsa_adaptor_decrypt', 'dleq_verify', 'dleq_challenge', 'dleq_nonce'],
+ 'C15': ['ecdsa_s2c_verify_commit', 'ecdsa_anti_exfil_signer_commit'],
+ 'C16': ['whitelist_verify', 'whitelist_compute_tweaked_privkey', 'borromean_verify', 'whitelist_hash_pubkey', 'whitelist_sign'],
  'C17': ['schnorrsig_aggverify', 'schnorrsig_inc_aggregate'],
  'C18': ['ecdh', 'ellswift_xdh', 'ellswift_create'],
- 'C19': ['bppp_rangeproof_norm_product_verify', 'bppp_generators_parse', 'bppp_parse_one_of_points'],
+ 'C20': ['ecmult_gen_blind'],
+ 'C19': ['bppp_rangeproof_norm_product_verify', 'bppp_generators_parse', 'bppp_parse_one_of_points', 'bppp_challenge_scalar'],
 }
 for pid, fns in MAP.items():
     mine = [f for f in facts if f[0] in fns]
@@ -51,13 +56,18 @@ for pid, fns in MAP.items():
         L.append(',\n'.join('    ⟨.%s, %s, %s, %s⟩' % f[1:] for f in fm))
         L.append('  ] := by decide')
         L.append('')
-    L.append('def all : List CallFact := %s' % ' ++ '.join('Facts.' + fn for fn in fns))
+    exc = [fn for fn in fns if fn in EXCEPT]
+    for fn in exc:
+        L.append('/-- `secp256k1_%s` ignores the overflow flag outside VERIFY builds ON PURPOSE: %s. -/' % (fn, EXCEPT[fn]))
+        L.append('theorem %s_flag_verify_only : (Facts.%s.filter (fun f => f.flag = some false)).length = 1 := by decide' % (fn, fn))
+        L.append('')
+    L.append('def all : List CallFact := %s' % ' ++ '.join('Facts.' + fn for fn in fns if fn not in EXCEPT))
     L.append('')
     L.append('/-- No overflow flag written by a scalar decoding in these functions is ignored (overwritten or never read). -/')
     L.append('theorem no_flag_dropped : ∀ f ∈ all, f.flag ≠ some false := by decide')
     L.append('')
     L.append('/-- non-vacuity: the regenerated fact lists are not empty -/')
-    L.append('example : all.length = %d := by decide' % len(mine))
+    L.append('example : all.length = %d := by decide' % len([f for f in mine if f[0] not in EXCEPT]))
     L.append('')
     L.append('end SecpZkp.Props.%s_guards' % pid)
     open(os.path.join(OUT, 'SecpZkp/Props/%s_guards.lean' % pid), 'w').write('\n'.join(L) + '\n')
